@@ -151,6 +151,19 @@ def expr_local(body, l, depth=0, stop=()):
     return ("var", l, name or "_%d" % l)
 
 
+def expand_phi(body, e, depth=2):
+    """replace ('var', l, name) nodes of a local with several whole definitions (the arms of a `match` / `if`) by
+    ('phi', l, (value of each definition, ...)), so that provenance questions see every arm"""
+    if depth < 0 or not isinstance(e, tuple):
+        return e
+    if e and e[0] == "var" and isinstance(e[1], int):
+        ds = mir.defs(body).get(e[1], [])
+        if len(ds) >= 2 and not mir.partial_defs(body).get(e[1]):
+            return ("phi", e[1], tuple(expand_phi(body, expr_def(body, d, stop=(e[1],)), depth - 1) for d in ds))
+        return e
+    return tuple(expand_phi(body, x, depth) if isinstance(x, tuple) else x for x in e)
+
+
 def expr_def(body, d, stop=()):
     """value expression of one definition record from mir.defs (assignment statement or call terminator)"""
     if d[0] == "stmt":
